@@ -34,14 +34,17 @@ LEVEL = "exploration"
 RULE = (
     "A case is one complete MCMC run built from JSON and executed by the real MCMC.run(): target in {toy = "
     "JointDistributionModel of 2-6 generated blocks (Normal, MVN, gamma-through-exp with Jacobian, Gamma, LogNormal, "
-    "Dirichlet, hierarchical Normal whose loc and scale are themselves sampled parameters); skygrid = generated "
+    "Dirichlet, hierarchical Normal whose loc and scale are themselves sampled parameters, GMRF field whose precision is "
+    "a positive parameter sampled without transform and without validated prior: NaN target outside the support); skygrid = generated "
     "genealogy (3-8 tips, serial or contemporaneous) + PiecewiseConstantCoalescentGridModel (generated grid / "
     "cutoff) + GMRF on log theta + Gamma prior on the precision; phylo = 4-5 taxon unrooted HKY (+Weibull) "
     "likelihood on a generated alignment with priors on branch lengths, kappa (plain or log-parameterised with "
-    "Jacobian), frequencies, shape}; 1-5 operators drawn from {ScalerOperator on 1-3 positive parameters, "
-    "SlidingWindowOperator on 1-3 unconstrained parameters, DirichletOperator on a simplex, "
-    "GMRFPiecewiseCoalescentBlockUpdatingOperator on (log theta, precision), HMCOperator on 1-3 unconstrained "
-    "parameters (steps 1-8, identity / diagonal / dense mass, no adaptor or AdaptiveStepSize)} with generated "
+    "Jacobian), frequencies, shape; optionally a flat prior on the branch lengths}; 1-5 operators drawn from "
+    "{ScalerOperator on 1-3 positive parameters, SlidingWindowOperator on 1-3 parameters that are unconstrained or "
+    "positive-without-validation (proposals outside the support give a non-finite target: outright rejection), "
+    "DirichletOperator on a simplex, GMRFPiecewiseCoalescentBlockUpdatingOperator on (log theta, precision), HMCOperator "
+    "on 1-3 toy parameters, unconstrained or positive sampled without transform with step sizes up to 1.5 (trajectories "
+    "that leave the support are retried with a fresh momentum; ten failures = infinite ratio = outright rejection) (steps 1-8, identity / diagonal / dense mass, no adaptor or AdaptiveStepSize)} with generated "
     "weights, initial tuning parameters, target acceptance probabilities and adaptation on / off; 20-200 "
     "iterations; 1-2 loggers (file Logger with generated delimiter / ContainerLogger, every in 1,2,3,7) logging all "
     "parameters and the joint; torch.manual_seed from the case. Every transition is checked against (a) the target "
@@ -76,8 +79,15 @@ ASSUMPTIONS = [
     "tuning direction: for each operator type the harness measures, with common random numbers on a fixed small target, "
     "whether the squared jump of the parameters whose proposal the tuning parameter scales (block update: the "
     "precision) grows or shrinks with tuning_parameter; DualAveragingStepSize is not generated (not monotone per step)",
-    "an operator that signals failure with an infinite Hastings ratio, or a proposal with non-finite density, must be "
-    "rejected without an acceptance draw; nothing else is asserted about it",
+    "outright rejection (re-derived from the statement): a proposal whose target is 0 / undefined (-inf or NaN from the fresh "
+    "rebuild), or that the operator could not make (infinite ratio), has acceptance probability min(1, exp(.)) = 0: it must "
+    "be rejected, every parameter restored bit-identically, tune() must be handed 0 (kind acceptance_probability, tag "
+    "outright) and, 0 being below any target, must not make the operator bolder. For EVERY iteration the tuning direction is "
+    "judged by the oracle's acceptance probability of that iteration's own proposal, not by the value tune() received",
+    "HMC with retries: every momentum drawn inside step() is recorded; the Hastings term must be K(p_used) - K(p_L) for the "
+    "last momentum drawn (the trajectory that produced the proposal, re-computed by the numpy leapfrog, whose gradient is "
+    "undefined outside the support so that abandoned trials are recognisable); that abandoned trials really left the support "
+    "is counted, not asserted",
     "exceptions: ZeroDivisionError of the end-of-run summary when an operator was never selected, and torch argument "
     "validation errors after a proposal left the support by underflow, are counted (labels) and the transitions before "
     "them are still checked; the property does not say that a run never raises. Any other exception is reported",
